@@ -1,5 +1,11 @@
 import L21.Props.C05
+import L21.Props.C05RT
 import L21.Props.C11
+#print axioms L21.Lef.c05_write_read_tokens
+#print axioms L21.Lef.c05_macro_write_read
+#print axioms L21.Lef.c05_decimal_text_roundtrip
+#print axioms L21.Lef.c05_decOk_of_wf
+#print axioms L21.Lef.c05_writer_gate_matches_reader
 #print axioms L21.LefEnum.c05_keyword_roundtrip
 #print axioms L21.LefEnum.c05_keywords_lex_as_one_name
 #print axioms L21.LefLex.c11_lex_total
